@@ -69,11 +69,19 @@ impl Wake for CommandWaker {
         // nothing to do.
         // TODO: Does that mean we should bail, since waking ourselves is
         // now pointless?
+        #[cfg(crux_verif)]
+        crate::verif::point("cmd.wake.before_send");
         let _ = self.ready_queue.send(self.task_id);
+        #[cfg(crux_verif)]
+        crate::verif::point("cmd.wake.after_send");
         self.woken.store(true, Ordering::Release);
+        #[cfg(crux_verif)]
+        crate::verif::point("cmd.wake.after_store");
 
         // Note: calling `wake` before `register` is a no-op
         self.parent_waker.wake();
+        #[cfg(crux_verif)]
+        crate::verif::point("cmd.wake.after_parent");
     }
 }
 
@@ -153,6 +161,14 @@ impl<Effect, Event> Command<Effect, Event> {
             return;
         }
 
+        #[cfg(crux_verif)]
+        if crate::verif::buggify("cmd.spurious_wake") {
+            // a spurious wake-up of every live task: legal under the Future contract
+            for (id, _) in &self.tasks {
+                let _ = self.ready_sender.send(TaskId(id));
+            }
+        }
+
         loop {
             self.spawn_new_tasks();
 
@@ -212,6 +228,8 @@ impl<Effect, Event> Command<Effect, Event> {
         };
 
         drop(waker);
+        #[cfg(crux_verif)]
+        crate::verif::point("cmd.run_task.after_poll");
 
         // If the task is pending, but there's only one copy of the waker - our one -
         // it can never be woken up again so we most likely need to evict it.
@@ -220,6 +238,8 @@ impl<Effect, Event> Command<Effect, Event> {
         // Note that there is an exception: the task may have used the waker and dropped it,
         // making it ready, rather than abandoned.
         let task_is_ready = arc_waker.woken.load(Ordering::Acquire);
+        #[cfg(crux_verif)]
+        crate::verif::point("cmd.run_task.between_reads");
         if result == TaskState::Suspended && !task_is_ready && Arc::strong_count(&arc_waker) < 2 {
             return TaskState::Cancelled;
         }
@@ -239,5 +259,17 @@ impl<Effect, Event> Command<Effect, Event> {
 
     pub fn was_aborted(&self) -> bool {
         self.aborted.load(Ordering::Acquire)
+    }
+
+    /// Number of tasks currently held by this command (verification accessor)
+    #[cfg(crux_verif)]
+    pub fn verif_live_tasks(&self) -> usize {
+        self.tasks.len()
+    }
+
+    /// Lengths of the ready and spawn queues (verification accessor)
+    #[cfg(crux_verif)]
+    pub fn verif_queued(&self) -> (usize, usize) {
+        (self.ready_queue.len(), self.spawn_queue.len())
     }
 }
